@@ -129,7 +129,8 @@ def generate(ctx):
         target = rng.choice(["plain", "buffer", "weight", "updater_parent_weight"])
         d = {"part": "post", "which": which, "target": target, "seed": rng.randrange(1 << 30),
              "train_update": rng.random() < 0.8, "eval_update": rng.random() < 0.8, "pre": rng.random() < 0.4,
-             "shape": [rng.randint(1, 4), rng.randint(1, 5)], "nops": rng.randint(3, 10)}
+             "shape": [rng.randint(1, 4), rng.randint(1, 5)], "nops": rng.randint(3, 10),
+             "prepend": rng.random() < 0.3, "always_call": rng.random() < 0.3}
         if which == "clamp":
             lo = rng.choice([None, -1.0, 0.0, 0.25, -3, -2.5, round(rng.uniform(-4.0, 3.0), 3)])
             hi = rng.choice([None, 1.0, 0.5, 2, 10.0, 0.0, 0, -0.5, round(rng.uniform(-3.0, 4.0), 3)])
@@ -347,6 +348,10 @@ def _post(ctx, desc):
             def call():
                 conn.update()
     kw = {"train_update": desc["train_update"], "eval_update": desc["eval_update"], "as_prehook": desc["pre"]}
+    if desc.get("prepend"):
+        kw["prepend"] = True          # ordering among several hooks only: firing and post-conditions are unchanged
+    if desc.get("always_call"):
+        kw["always_call"] = True      # (post-position only) run even if the module call raises
     try:
         if desc["which"] == "clamp":
             hk = Clamping(mod, attr, desc["min"], desc["max"], **kw)
